@@ -363,16 +363,6 @@ int KSI_RequestHandle_new(KSI_CTX *ctx, const unsigned char *request, size_t req
 	tmp->implCtx_free = NULL;
 	tmp->request = NULL;
 	tmp->request_length = 0;
-	if (request != NULL && request_length > 0) {
-		tmp->request = KSI_calloc(request_length, 1);
-		if (tmp->request == NULL) {
-			KSI_pushError(ctx, res = KSI_OUT_OF_MEMORY, NULL);
-			goto cleanup;
-		}
-		memcpy(tmp->request, request, request_length);
-		tmp->request_length = request_length;
-	}
-
 	tmp->response = NULL;
 	tmp->response_length = 0;
 	tmp->completed = false;
@@ -385,6 +375,16 @@ int KSI_RequestHandle_new(KSI_CTX *ctx, const unsigned char *request, size_t req
 
 	tmp->reqCtx = NULL;
 	tmp->reqCtx_free = NULL;
+
+	if (request != NULL && request_length > 0) {
+		tmp->request = KSI_calloc(request_length, 1);
+		if (tmp->request == NULL) {
+			KSI_pushError(ctx, res = KSI_OUT_OF_MEMORY, NULL);
+			goto cleanup;
+		}
+		memcpy(tmp->request, request, request_length);
+		tmp->request_length = request_length;
+	}
 
 	*handle = tmp;
 	tmp = NULL;
